@@ -244,6 +244,12 @@ def main(argv=None):
         solver_ms += res["solver_ms"]
         queries += res["queries"]
         for r in res["records"]:
+            # a property whose argument is a composition over another property's contracts re-proves those obligations under its
+            # own id (RELABEL = {"C15/": "C25/wire:"}): a change that breaks the borrowed contract is reported by both checks
+            for src_pfx, dst_pfx in getattr(mod, "RELABEL", {}).items():
+                if r["id"].startswith(src_pfx):
+                    r = dict(r, id=dst_pfx + r["id"][len(src_pfx):])
+                    break
             if not re.match(r"C\d\d/", r["id"]):
                 errors.append((res["task"], f"obligation without property prefix: {r['id']}"))
             if not r["id"].startswith(prop + "/"):
@@ -261,10 +267,13 @@ def main(argv=None):
                     cur.update(dict(r, task=res["task"], **keep))
             backends[r["backend"]] = backends.get(r["backend"], 0) + 1
 
-    n_ob = len(obligations)
+    # obligations checked by a BOUNDED stand-in are reported (a failure is a violation with a concrete input) but never counted
+    # among the discharged proof obligations
+    bounded_obs = {k: o for k, o in obligations.items() if str(o["backend"]).startswith("bounded")}
+    n_ob = len(obligations) - len(bounded_obs)
     failed = [o for o in obligations.values() if o["status"] == "failed"]
     undec_obs = [o for o in obligations.values() if o["status"] == "undecided"]
-    discharged = n_ob - len(failed) - len(undec_obs)
+    discharged = n_ob - len([o for o in failed if o["id"] not in bounded_obs]) - len([o for o in undec_obs if o["id"] not in bounded_obs])
 
     # ------------------------------------------------------------------ baseline (vacuity guard a)
     base_path = os.path.join(VERIF, "baseline", f"{prop}.json")
@@ -316,7 +325,10 @@ def main(argv=None):
     level = claimed_level(mod, prop)
     bounded = []
     if hasattr(mod, "bounded_results"):
-        bounded = mod.bounded_results
+        bounded = list(mod.bounded_results)
+    if bounded_obs:
+        bounded.append({"bounded_obligations": [{"id": o["id"], "status": o["status"], "backend": o["backend"]} for o in bounded_obs.values()],
+                        "counted_as_proved": False})
     proof_complete = (discharged == n_ob and n_ob > 0 and not missing and not errors and not undecided)
     ev_level = level if (level != "proof" or proof_complete) else "other"
     samples = []
